@@ -63,7 +63,7 @@ LEVEL_NOTE = ("Trusted: Coq kernel/vm_compute; the shared transcriptions Model/A
               "the theorems: mixed-flavour chains (tested only), rebuild() (was a real defect, repaired in /repo; outside the "
               "property's mutation list), weak-reference death of subscribed specifications.")
 
-MUT_KINDS = ("register", "unregister", "subscribe", "unsubscribe", "setregbases", "setspecbases",
+MUT_KINDS = ("reorder", "register", "unregister", "subscribe", "unsubscribe", "setregbases", "setspecbases",
              "classimplements", "directlyprovides", "alsoprovides", "nolongerprovides")
 LOOKUPS = ("lookup", "lookup1", "lookupAll", "names", "subscriptions", "queryAdapter", "adapter_hook",
            "queryMultiAdapter", "subscribers")
@@ -296,7 +296,7 @@ def gen_case(rng, n_target):
 
     weights = {"register": 7, "unregister": 3, "subscribe": 4, "unsubscribe": 2, "setregbases": 2,
                "setspecbases": 4, "classimplements": 3, "directlyprovides": 2, "alsoprovides": 2,
-               "nolongerprovides": 1}
+               "nolongerprovides": 1, "reorder": 5}
     kinds = list(weights)
     ws = [weights[k] for k in kinds]
     guard = 0
@@ -354,7 +354,9 @@ def gen_case(rng, n_target):
                 b = rng.choice(busy)
                 cur = list(reg_bases[r])
                 bs = [y for y in cur if y != b] if b in cur else sorted(set(cur[:1] + [b]), reverse=True)
-            moved = set(reg_bases[r]) ^ set(bs)
+            if len(reg_bases[r]) >= 2 and rng.random() < 0.25:
+                bs = list(reversed(reg_bases[r]))      # same registries, other priority
+            moved = set(reg_bases[r]) ^ set(bs) or set(bs)
             seen = [e for e in regs_seen if e[0] in moved] or regs_seen
             sseen = [e for e in subs_seen if e[0] in moved] or subs_seen
             below = [q for q in chain(r)]
@@ -367,6 +369,71 @@ def gen_case(rng, n_target):
                 probe = probe_subs(rng.choice(below), req, p)
             reg_bases[r] = bs
             emit(probe, [k, r, bs], k)
+        elif k == "reorder":
+            # a pure REORDERING of the bases of an interface m one or two levels above the looked-up
+            # spec, with competing registrations on the reordered bases: the set of ancestors of
+            # everything below m stays the same, only the resolution orders (hence the winner, and
+            # the order of subscriptions) change
+            cands = [m for m in R if len([y for y in R if y < m]) >= 2]
+            if not cands:
+                continue
+            m = rng.choice(cands)
+            cur = list(sim.specs[m]["bases"])
+            if len(cur) < 2 or any(x in sim.anc(y) for x in cur for y in cur if x != y) or rng.random() < 0.2:
+                pool = [y for y in R if y < m]
+                rng.shuffle(pool)
+                pair = [(x, y) for x in pool for y in pool
+                        if x != y and x not in sim.anc(y) and y not in sim.anc(x)]
+                if not pair:
+                    continue
+                cur = list(pair[0])
+                sim.specs[m]["bases"] = cur
+                sim.refresh()
+                ops.append(["setspecbases", m, cur])
+            a, b = cur[0], cur[-1]
+            r = rng.randrange(n_regs)
+            rq = rng.choice(chain(r))
+            p = rng.choice(P)
+            nm = rng.choice(names)
+            v1, v2 = rng.sample([[1, 1], [3, 3], [4, 4], [5, 5]], 2)
+            use_sub = rng.random() < 0.45
+            if use_sub:
+                pp = p if rng.random() < 0.7 else None
+                ops.append(["subscribe", r, [a], pp, v1])
+                ops.append(["subscribe", r, [b], pp, v2])
+                subs_seen.extend([(r, [a], pp), (r, [b], pp)])
+            else:
+                ops.append(["register", r, [a], p, nm, v1])
+                ops.append(["register", r, [b], p, nm, v2])
+                regs_seen.extend([(r, [a], p, nm), (r, [b], p, nm)])
+            below = sorted(d for d in sim.desc(m) if d != m and d in look_pool)
+            if not below or rng.random() < 0.3:
+                higher = [x for x in R if x > m and m not in sim.anc(x)]
+                if higher and rng.random() < 0.5:
+                    x = rng.choice(higher)
+                    nb = RC._consistent_bases(sim.specs, [y for y in sim.specs[x]["bases"] if y not in sim.anc(m)] + [m])
+                    sim.specs[x]["bases"] = nb
+                    ops.append(["setspecbases", x, nb])
+                else:
+                    c = rng.choice(classes)
+                    if m not in sim.anc(c):
+                        sim.specs[c]["implements"] = sim.specs[c]["implements"] + [m]
+                        ops.append(["classimplements", c, [m], "add"])
+                sim.refresh()
+                below = sorted(d for d in sim.desc(m) if d != m and d in look_pool)
+            if not below:
+                continue
+            d = rng.choice(below)
+            objs = sim.objs_below(d)
+            fo = (0, rng.choice(objs)) if objs and rng.random() < 0.3 else None
+            if use_sub:
+                probe = probe_subs(rq, [a], pp, focus=(0, d), focus_obj=fo)
+            else:
+                probe = probe_adapter(rq, [a], p, nm, focus=(0, d), focus_obj=fo)
+            new = list(reversed(cur))
+            sim.specs[m]["bases"] = new
+            sim.refresh()
+            emit(probe, ["setspecbases", m, new], "reorder")
         elif k == "setspecbases":
             x = rng.choice(R)
             pool = [y for y in R if y < x]
